@@ -178,8 +178,11 @@ def expected(spec, path=(), parent=None, out=None, unspec=None, either=None):
 # the parametric tree
 # ---------------------------------------------------------------------------
 
-def W_(n):
-    return " ".join(f"w{i}" for i in range(n))
+def W_(n, sep=" "):
+    return sep.join(f"w{i}" for i in range(n))
+
+
+TITLE_SEPS = [" ", "  ", "\n", " \n ", " \n    ", "\t", " \t ", "\xa0", " \xa0 ", "\r\n"]
 
 
 def party(kind, uid="orcid", email="present", name="both", role=False):
@@ -321,14 +324,14 @@ DEFAULT = dict(
     abstract=("own", 20), coverage=True, datatable=True, rights="own", methods=True, project=True, keywords=(5,),
     creator=dict(), contact=dict(), metadataProvider=None, associatedParty=None, personnel=dict(),
     dt=dict(), other=None, method_desc="own", maint_desc=None, qc_desc=None, extent_desc=None,
-    project_abstract=False, related_project=False,
+    project_abstract=False, related_project=False, title_sep=" ",
 )
 
 
 def build(p):
     q = dict(DEFAULT)
     q.update(p)
-    ds = [["title", W_(q["title_words"]), {}, []]]
+    ds = [["title", W_(q["title_words"], q["title_sep"]), {}, []]]
     ds.append(party("creator", **q["creator"]))
     if q["metadataProvider"] is not None:
         ds.append(party("metadataProvider", **q["metadataProvider"]))
@@ -570,6 +573,9 @@ def all_params(tier):
     for tw in (0, 1, 4, 5, 6):
         for pw in (1, 4, 5):
             out.append(dict(title_words=tw, project_title_words=pw))
+    for sep in TITLE_SEPS:
+        for tw in (2, 4, 5):
+            out.append(dict(title_words=tw, title_sep=sep))
     for k in ("method_desc", "maint_desc", "qc_desc", "extent_desc"):
         for f in ("own", "para", "markdown", "empty", "emptystr", "inline"):
             out.append({k: f})
